@@ -24,6 +24,7 @@ func run(c *hlib.Ctx) {
 	runDirectional(c)
 	runCast(c)
 	runImages(c)
+	runLit(c)
 }
 
 func hex3(v model3d.Coord3D) string {
